@@ -16,8 +16,9 @@
        StoreNew  : addAttachments (AddRaw of every inline body), BEFORE the CAS write       [store_new]
        Commit    : storeOldBodyInRevTreeAndUpdateCurrent + the CAS write                    [commit]
        Sweep     : delete (leaf attachment ids before) \ (leaf attachment ids after)        [leafkeys, sweep]
-   An attempt that loses the CAS race has done prepare/resolve/StoreNew only: event [Try w].  The attempt
-   that ends the request is [Write w].  A request with k lost races is  Try w; (competitors); ...; Write w; the
+   An attempt that loses the CAS race has done prepare/resolve/StoreNew (and has written the transient backup
+   of the revision it meant to supersede, [d_bk]) but nothing else: event [Try w].  The attempt that ends the
+   request is [Write w].  A request with k lost races is  Try w; (competitors); ...; Write w; the
    theorems quantify over ALL event lists.  db.Put resets the client attachment map per attempt, so every
    attempt resolves the ORIGINAL map (that is why Try and Write take the same [wop]).
 
